@@ -559,6 +559,52 @@ pub fn scenario_events_aspect(keys: [u8; 3], states: [u8; 3], modes: u8, n: u8, 
     ok
 }
 
+// ---------------------------------------------------------------- C17 (switching)
+/// Two real decoders over the runtime-selectable wrapper see the same three key events: A starts with variant `from` and is
+/// switched to variant `to` before event `switch_at`, B held `to` from the start. From the switch on they must agree:
+/// switching the variant switches to that layout and no other, whatever was typed before.
+#[cfg(not(kani))]
+pub fn scenario_switching(keys: [u8; 3], states: [u8; 3], switch_at: u8, from: u8, to: u8, mode: bool, verbose: bool) -> bool {
+    let h = x_mode(mode);
+    let mut a = EventDecoder::new(x_anylayout(from), h);
+    let mut b = EventDecoder::new(x_anylayout(to), h);
+    let mut ok = true;
+    for i in 0..3usize {
+        if i as u8 == switch_at {
+            a.change_layout(x_anylayout(to));
+            say!(verbose, "step {}: A.change_layout(variant #{})", i, to);
+        }
+        let k = x_keycode(keys[i]);
+        let st = x_state(states[i]);
+        let ra = a.process_keyevent(KeyEvent::new(k, st));
+        let rb = b.process_keyevent(KeyEvent::new(k, st));
+        let must = i as u8 >= switch_at;
+        say!(verbose, "step {}: event {:?}/{:?}: A (variant #{} -> #{}) -> {:?}   B (variant #{} all along) -> {:?}{}", i, k, st, from, to, ra, to, rb,
+            if must && ra != rb { "   <-- MISMATCH" } else { "" });
+        if must && ra != rb {
+            ok = false;
+        }
+    }
+    ok
+}
+
+#[cfg(not(kani))]
+pub fn x_anylayout(i: u8) -> layouts::AnyLayout {
+    use layouts::*;
+    match i % 10 {
+        0 => AnyLayout::Us104Key(Us104Key),
+        1 => AnyLayout::Uk105Key(Uk105Key),
+        2 => AnyLayout::Azerty(Azerty),
+        3 => AnyLayout::De105Key(De105Key),
+        4 => AnyLayout::Dvorak104Key(Dvorak104Key),
+        5 => AnyLayout::Colemak(Colemak),
+        6 => AnyLayout::Jis109Key(Jis109Key),
+        7 => AnyLayout::No105Key(No105Key),
+        8 => AnyLayout::FiSe105Key(FiSe105Key),
+        _ => AnyLayout::DVP104Key(DVP104Key),
+    }
+}
+
 // ---------------------------------------------------------------- C18
 /// A Keyboard and three separately owned real stages are brought into the same state (`pre_bits` bits of `bits`, then
 /// `pre_bytes` bytes) and then given one operation; results and the follow-up behaviour must agree.
